@@ -53,8 +53,11 @@ RULE = (
     'searched (cheap probe interpreters predict, real children confirm by reporting the order they saw) until EVERY '
     'permutation of its iteration order has been witnessed in a real child that loaded the package. '
     'VARFILES: every ordered selection of 1,2,3 of 3 files (thorough: 1..4 of 4; .yaml/.yml/.conf formats; every file '
-    'sets v1, pairs share v2/s1, each has a private name) x {FlowIR: conf, graph, exp; DSL: conf, exp; DOSINI: conf, '
-    'graph}, in every sweep and searched process; absolute oracle. '
+    'sets v1, pairs share v2/s1, each has a private name) x {FlowIR: conf, graph; DSL: conf; DOSINI: conf, graph} in '
+    'every sweep and searched process, and x {FlowIR: exp; DSL: exp} (experimentFromPackage aggregates the files itself) '
+    'in the reference process; absolute oracle (user variables = reference layering; every component sees the winners '
+    'in its variables and resolved arguments; input/variables.yaml for exp), and the loads that pass it must also be '
+    'identical across processes. '
     'LISTING: k=0..23 selects the k-th permutation (k mod n!) of every directory listing / glob result with n<=4 entries '
     '(every permutation for n<=4; n>4: rotation by k, reversed for odd k) for rich/exp, DOSINI/exp, DOSINI/conf(p2), '
     'DSL/exp. KEYORDER: for every mapping of the rich FlowIR, DSL and layering documents and every variable file with '
@@ -464,6 +467,7 @@ def fixed_root(want=None, wait_s=1800):
 
 
 def run(ctx):
+    _FILE_CACHE.clear()
     with fixed_root() as (slot, root):
         _run(ctx, root, slot)
 
@@ -610,6 +614,7 @@ def _run(ctx, root, slot):
 
 # ----------------------------------------------------------------------------------------------------- replay
 def replay(ctx, case):
+    _FILE_CACHE.clear()
     with fixed_root(case.get('slot', 0)) as (slot, root):
         tasks = G.build(root, case.get('tier') == 'thorough')
         for t in tasks:
